@@ -18,7 +18,7 @@ pub fn run(ctx: &Ctx) -> Report {
     let local = run_cases(ctx, n, |case, l| one_case(ctx, case, l));
     let mut rep = Report::new(
         "exploration",
-        "case i: profile=i%13, strategy kind=(i/13)%6, configuration (format x alg x decoys x holder key)=(i/78)%36, \
+        "case i: profile=i%14, strategy kind=(i/14)%6, configuration (format x alg x decoys x holder key)=(i/84)%36, \
          claims/strategy paths/selection drawn from SplitMix64(seed,i). Distinct = structural fingerprint (claims shape, \
          strategy kind, positions of SD and disclosed paths, configuration bits); non-trivial = >=1 SD path and the \
          selection discloses a non-empty proper subset of them or is one of the two extremes (everything / {}).",
